@@ -284,9 +284,10 @@ def main(run):
         h = G.tok(s)
         sweep.append("upath 64 " + h)
         sweep.append("uquery 64 " + h)
-        if len(s) <= n_all:
+        if len(s) <= n_all or not quick:
             sweep.append("upol 2 11 " + h)
             sweep.append("uqol 1 15 " + h)
+        if len(s) <= n_all:
             sweep.append("uspl 0 %s %s" % (caps, G.tok(b"coap://h" + s)))
             sweep.append("uspl 0 %s %s" % (caps, G.tok(b"coap://" + s)))
             sweep.append("uspl 0 %s %s" % (caps, G.tok(b"/" + s)))
@@ -341,7 +342,7 @@ def main(run):
             base_lines.append("%s %02x" % (cmd, b))
             base_lines.append("%s 61%02x %02x62" % (cmd, b, b))
     # generated cases; buffer sizes are aimed at the exact need the specification computes
-    n = 20000 if quick else 300000
+    n = 20000 if quick else 600000
     pstr = [G.gen_path(r) for _ in range(n * 3 // 10)]
     qstr = [G.gen_path(r, query=True) for _ in range(n * 2 // 10)]
     needs, _ = vlib.run_lines_robust(model, ["spec_path " + G.tok(s) for s in pstr] +
